@@ -95,6 +95,39 @@ where
 }
 
 impl<K: Send, V: Send + Sync, H> CacheShared<K, V, H> {
+  /// Bookkeeping for an expired entry that an `entry()` call found and took out of `shard`'s
+  /// map (the caller holds the shard's write lock): same accounting as the janitor's expiry
+  /// cleanup - timers, policy, metrics, cost gate and the `Expired` notification.
+  pub(crate) fn discard_expired_entry(
+    &self,
+    shard: &crate::store::Shard<K, V, H>,
+    shard_index: usize,
+    key: &K,
+    entry: Arc<CacheEntry<V>>,
+  ) where
+    K: Clone,
+  {
+    if let Some(wheel) = &shard.timer_wheel {
+      if let Some(handle) = &entry.ttl_timer_handle {
+        wheel.cancel(handle);
+      }
+      if let Some(handle) = &entry.tti_timer_handle {
+        wheel.cancel(handle);
+      }
+    }
+    self.cache_policy[shard_index].on_remove(key);
+    let expires_at = entry.expires_at.load(Ordering::Relaxed);
+    let by_ttl = expires_at > 0 && crate::time::now_duration().as_nanos() as u64 >= expires_at;
+    if by_ttl {
+      self.metrics.evicted_by_ttl.fetch_add(1, Ordering::Relaxed);
+    } else {
+      self.metrics.evicted_by_tti.fetch_add(1, Ordering::Relaxed);
+    }
+    self.metrics.current_cost.fetch_sub(entry.cost(), Ordering::Relaxed);
+    if let Some(sender) = &self.notification_sender {
+      let _ = sender.try_send((key.clone(), entry.value(), crate::EvictionReason::Expired));
+    }
+  }
 
   #[inline]
   pub fn get_shard_index<Q>(&self, key: &Q) -> usize
